@@ -17,6 +17,8 @@ CONSTANTS
   MaxTimeout = 1
   MaxWrites = 0
   WLens = {}
+  FrameOK <- FrameAny
+  KeepHist = TRUE
 VIEW View
 INVARIANTS TypeOK InOrder NoLoss FramingInv BufferInv PongsOk NoPartialPong WritesOk UnitsOk DiscOk EmitInv
 PROPERTIES ErrNoLoss
